@@ -90,12 +90,14 @@ static int a_md5_sens(hreg_t *r) {
 }
 static void a_md5_get_digest(const void *d, size_t n, uint8_t *dg, size_t *dsz) { (void)dsz; md5_get_digest(d, n, dg); }
 static void a_md5_get_digest_str(const char *d, size_t n, char *s, size_t *ssz) { (void)ssz; md5_get_digest_str(d, n, s); }
+#ifdef H_WITH_HMAC
 static void a_md5_h_init(const uint8_t *k, size_t kl, void *h) { hmac_md5_init(k, kl, (hmac_md5_ctx_p)h); }
 static void a_md5_h_update(void *h, const uint8_t *d, size_t n) { hmac_md5_update((hmac_md5_ctx_p)h, d, n); }
 static void a_md5_h_final(void *h, uint8_t *dg, size_t *dsz) { (void)dsz; hmac_md5_final((hmac_md5_ctx_p)h, dg); }
 static void a_md5_h_oneshot(const uint8_t *k, size_t kl, const uint8_t *d, size_t n, uint8_t *dg, size_t *dsz) { (void)dsz; hmac_md5(k, kl, d, n, dg); }
 static void a_md5_h_get_digest(const void *k, size_t kl, const void *d, size_t n, uint8_t *dg, size_t *dsz) { (void)dsz; md5_hmac_get_digest(k, kl, d, n, dg); }
 static void a_md5_h_get_digest_str(const char *k, size_t kl, const char *d, size_t n, char *s, size_t *ssz) { (void)ssz; md5_hmac_get_digest_str(k, kl, d, n, s); }
+#endif
 
 
 /* ------------------------------------------------------------------ SHA-1 */
@@ -136,12 +138,14 @@ static int a_sha1_sens(hreg_t *r) {
 }
 static void a_sha1_get_digest(const void *d, size_t n, uint8_t *dg, size_t *dsz) { (void)dsz; sha1_get_digest(d, n, dg); }
 static void a_sha1_get_digest_str(const char *d, size_t n, char *s, size_t *ssz) { (void)ssz; sha1_get_digest_str(d, n, s); }
+#ifdef H_WITH_HMAC
 static void a_sha1_h_init(const uint8_t *k, size_t kl, void *h) { hmac_sha1_init(k, kl, (hmac_sha1_ctx_p)h); }
 static void a_sha1_h_update(void *h, const uint8_t *d, size_t n) { hmac_sha1_update((hmac_sha1_ctx_p)h, d, n); }
 static void a_sha1_h_final(void *h, uint8_t *dg, size_t *dsz) { (void)dsz; hmac_sha1_final((hmac_sha1_ctx_p)h, dg); }
 static void a_sha1_h_oneshot(const uint8_t *k, size_t kl, const uint8_t *d, size_t n, uint8_t *dg, size_t *dsz) { (void)dsz; hmac_sha1(k, kl, d, n, dg); }
 static void a_sha1_h_get_digest(const void *k, size_t kl, const void *d, size_t n, uint8_t *dg, size_t *dsz) { (void)dsz; sha1_hmac_get_digest(k, kl, d, n, dg); }
 static void a_sha1_h_get_digest_str(const char *k, size_t kl, const char *d, size_t n, char *s, size_t *ssz) { (void)ssz; sha1_hmac_get_digest_str(k, kl, d, n, s); }
+#endif
 
 
 /* ------------------------------------------------------------------ SHA-2 */
@@ -182,12 +186,15 @@ static int a_sha2_sens(hreg_t *r) {
 	HR(r, i, sha2_ctx_t, count_hi, 8);
 	return (i);
 }
+#ifdef H_WITH_HMAC
 static void a_sha2_h_update(void *h, const uint8_t *d, size_t n) { hmac_sha2_update((hmac_sha2_ctx_p)h, d, n); }
 static void a_sha2_h_final(void *h, uint8_t *dg, size_t *dsz) { hmac_sha2_final((hmac_sha2_ctx_p)h, dg, dsz); }
+#endif
 #define A_SHA2_BITS(_b)							\
 static void a_sha2_##_b##_init(void *c) { sha2_init(_b, (sha2_ctx_p)c); } \
 static void a_sha2_##_b##_get_digest(const void *d, size_t n, uint8_t *dg, size_t *dsz) { sha2_get_digest(_b, d, n, dg, dsz); } \
-static void a_sha2_##_b##_get_digest_str(const char *d, size_t n, char *s, size_t *ssz) { sha2_get_digest_str(_b, d, n, s, ssz); } \
+static void a_sha2_##_b##_get_digest_str(const char *d, size_t n, char *s, size_t *ssz) { sha2_get_digest_str(_b, d, n, s, ssz); }
+#define A_SHA2_HBITS(_b)							\
 static void a_sha2_##_b##_h_init(const uint8_t *k, size_t kl, void *h) { hmac_sha2_init(_b, k, kl, (hmac_sha2_ctx_p)h); } \
 static void a_sha2_##_b##_h_oneshot(const uint8_t *k, size_t kl, const uint8_t *d, size_t n, uint8_t *dg, size_t *dsz) { hmac_sha2(_b, k, kl, d, n, dg, dsz); } \
 static void a_sha2_##_b##_h_get_digest(const void *k, size_t kl, const void *d, size_t n, uint8_t *dg, size_t *dsz) { sha2_hmac_get_digest(_b, k, kl, d, n, dg, dsz); } \
@@ -196,6 +203,12 @@ A_SHA2_BITS(224)
 A_SHA2_BITS(256)
 A_SHA2_BITS(384)
 A_SHA2_BITS(512)
+#ifdef H_WITH_HMAC
+A_SHA2_HBITS(224)
+A_SHA2_HBITS(256)
+A_SHA2_HBITS(384)
+A_SHA2_HBITS(512)
+#endif
 
 
 /* ------------------------------------------------------------------ GOST R 34.11-2012 */
@@ -234,21 +247,33 @@ static int a_gost_sens(hreg_t *r) {
 	HR(r, i, gost3411_2012_ctx_t, sbuf, 64);
 	return (i);
 }
+#ifdef H_WITH_HMAC
 static void a_gost_h_update(void *h, const uint8_t *d, size_t n) { hmac_gost3411_2012_update((hmac_gost3411_2012_ctx_p)h, d, n); }
 static void a_gost_h_final(void *h, uint8_t *dg, size_t *dsz) { hmac_gost3411_2012_final((hmac_gost3411_2012_ctx_p)h, dg, dsz); }
+#endif
 #define A_GOST_BITS(_b)							\
 static void a_gost_##_b##_init(void *c) { gost3411_2012_init(_b, (gost3411_2012_ctx_p)c); } \
 static void a_gost_##_b##_get_digest(const void *d, size_t n, uint8_t *dg, size_t *dsz) { gost3411_2012_get_digest(_b, d, n, dg, dsz); } \
-static void a_gost_##_b##_get_digest_str(const char *d, size_t n, char *s, size_t *ssz) { gost3411_2012_get_digest_str(_b, d, n, s, ssz); } \
+static void a_gost_##_b##_get_digest_str(const char *d, size_t n, char *s, size_t *ssz) { gost3411_2012_get_digest_str(_b, d, n, s, ssz); }
+#define A_GOST_HBITS(_b)							\
 static void a_gost_##_b##_h_init(const uint8_t *k, size_t kl, void *h) { hmac_gost3411_2012_init(_b, k, kl, (hmac_gost3411_2012_ctx_p)h); } \
 static void a_gost_##_b##_h_oneshot(const uint8_t *k, size_t kl, const uint8_t *d, size_t n, uint8_t *dg, size_t *dsz) { hmac_gost3411_2012(_b, k, kl, d, n, dg, dsz); } \
 static void a_gost_##_b##_h_get_digest(const void *k, size_t kl, const void *d, size_t n, uint8_t *dg, size_t *dsz) { gost3411_2012_hmac_get_digest(_b, k, kl, d, n, dg, dsz); } \
 static void a_gost_##_b##_h_get_digest_str(const char *k, size_t kl, const char *d, size_t n, char *s, size_t *ssz) { gost3411_2012_hmac_get_digest_str(_b, k, kl, d, n, s, ssz); }
 A_GOST_BITS(256)
 A_GOST_BITS(512)
+#ifdef H_WITH_HMAC
+A_GOST_HBITS(256)
+A_GOST_HBITS(512)
+#endif
 
 
 /* ------------------------------------------------------------------ the table */
+#ifdef H_WITH_HMAC
+#	define HM(_f)	_f
+#else	/* C04 does not need (or compile) the HMAC entry points */
+#	define HM(_f)	NULL
+#endif
 /* Transform implementations this BUILD contains (the sandbox CPU supports all of them). */
 #if defined(SHA1_ENABLE_SIMD)
 #	define SHA1_VARS	3, { "generic", "sse", "shani" }
@@ -279,15 +304,15 @@ A_GOST_BITS(512)
 	  offsetof(hmac_sha2_ctx_t, k_opad), _vars, 1,			\
 	  a_sha2_##_b##_init, a_sha2_force, a_sha2_update, a_sha2_final, a_sha2_fill, a_sha2_live, a_sha2_sens, \
 	  a_sha2_##_b##_get_digest, a_sha2_##_b##_get_digest_str,	\
-	  a_sha2_##_b##_h_init, a_sha2_h_update, a_sha2_h_final, a_sha2_##_b##_h_oneshot, \
-	  a_sha2_##_b##_h_get_digest, a_sha2_##_b##_h_get_digest_str }
+	  HM(a_sha2_##_b##_h_init), HM(a_sha2_h_update), HM(a_sha2_h_final), HM(a_sha2_##_b##_h_oneshot), \
+	  HM(a_sha2_##_b##_h_get_digest), HM(a_sha2_##_b##_h_get_digest_str) }
 #define A_GOST_ROW(_b, _hs)						\
 	{ "gost3411_2012", "[" #_b "]", _b, 64, _hs, sizeof(gost3411_2012_ctx_t), sizeof(hmac_gost3411_2012_ctx_t), \
 	  offsetof(hmac_gost3411_2012_ctx_t, k_opad), GOST_VARS, 1,	\
 	  a_gost_##_b##_init, a_gost_force, a_gost_update, a_gost_final, a_gost_fill, a_gost_live, a_gost_sens, \
 	  a_gost_##_b##_get_digest, a_gost_##_b##_get_digest_str,	\
-	  a_gost_##_b##_h_init, a_gost_h_update, a_gost_h_final, a_gost_##_b##_h_oneshot, \
-	  a_gost_##_b##_h_get_digest, a_gost_##_b##_h_get_digest_str }
+	  HM(a_gost_##_b##_h_init), HM(a_gost_h_update), HM(a_gost_h_final), HM(a_gost_##_b##_h_oneshot), \
+	  HM(a_gost_##_b##_h_get_digest), HM(a_gost_##_b##_h_get_digest_str) }
 
 #define HALG_COUNT 8
 static const halg_t halgs[HALG_COUNT] = {
@@ -295,12 +320,12 @@ static const halg_t halgs[HALG_COUNT] = {
 	  1, { "generic" }, 0,
 	  a_md5_init, a_md5_force, a_md5_update, a_md5_final, a_md5_fill, a_md5_live, a_md5_sens,
 	  a_md5_get_digest, a_md5_get_digest_str,
-	  a_md5_h_init, a_md5_h_update, a_md5_h_final, a_md5_h_oneshot, a_md5_h_get_digest, a_md5_h_get_digest_str },
+	  HM(a_md5_h_init), HM(a_md5_h_update), HM(a_md5_h_final), HM(a_md5_h_oneshot), HM(a_md5_h_get_digest), HM(a_md5_h_get_digest_str) },
 	{ "sha1", "", 0, 64, 20, sizeof(sha1_ctx_t), sizeof(hmac_sha1_ctx_t), offsetof(hmac_sha1_ctx_t, k_opad),
 	  SHA1_VARS, 0,
 	  a_sha1_init, a_sha1_force, a_sha1_update, a_sha1_final, a_sha1_fill, a_sha1_live, a_sha1_sens,
 	  a_sha1_get_digest, a_sha1_get_digest_str,
-	  a_sha1_h_init, a_sha1_h_update, a_sha1_h_final, a_sha1_h_oneshot, a_sha1_h_get_digest, a_sha1_h_get_digest_str },
+	  HM(a_sha1_h_init), HM(a_sha1_h_update), HM(a_sha1_h_final), HM(a_sha1_h_oneshot), HM(a_sha1_h_get_digest), HM(a_sha1_h_get_digest_str) },
 	A_SHA2_ROW(224, 64, 28, SHA2_64_VARS),
 	A_SHA2_ROW(256, 64, 32, SHA2_64_VARS),
 	A_SHA2_ROW(384, 128, 48, SHA2_128_VARS),
